@@ -477,3 +477,34 @@ pub(super) enum FoldState {
 
 #[cfg(test)]
 mod tests;
+
+/// Verification-only entry points (feature `trustfall_verif`).
+#[cfg(feature = "trustfall_verif")]
+pub mod verif_hooks {
+    use std::{collections::BTreeMap, sync::Arc};
+
+    use super::CandidateValue;
+    use crate::ir::{Argument, FieldValue, IRFold, LocalField, Operation};
+
+    pub use super::dynamic::verif_candidate_from_operation as dynamic_candidate;
+
+    pub fn static_candidate(
+        filters: &[Operation<LocalField, Argument>],
+        variables: &BTreeMap<Arc<str>, FieldValue>,
+        nullable: bool,
+    ) -> Option<CandidateValue<FieldValue>> {
+        super::filters::candidate_from_statically_evaluated_filters(
+            filters.iter(),
+            variables,
+            nullable,
+        )
+        .map(|c| c.into_owned())
+    }
+
+    pub fn fold_requires_at_least_one_element(
+        variables: &BTreeMap<Arc<str>, FieldValue>,
+        fold: &IRFold,
+    ) -> bool {
+        super::filters::fold_requires_at_least_one_element(variables, fold)
+    }
+}
